@@ -69,17 +69,23 @@ type Interp struct {
 	MaxUnwind int
 	MaxInstrs int
 	Deadline  time.Time
+	// BudgetCPU, ThreadCPU: CPU-time budget of the run (see checkDeadline); ThreadCPU reads the CPU clock of the
+	// OS thread the interpreter is locked to
+	BudgetCPU  time.Duration
+	ThreadCPU  func() time.Duration
+	cpu0       time.Duration
+	cpuStarted bool
 	// SchedOrder: preferred order (goroutine ids in creation order, 0 = main) in which
 	// ready goroutines are resumed when the running one blocks
 	SchedOrder []int
 	// SchedReverse: resume ready goroutines in reverse creation order (set by zzSchedule)
 	SchedReverse bool
-	Stats     Stats
-	initDone  map[*ssa.Package]bool
-	InitPkgs  map[string]bool // packages whose init is interpreted
-	lenient   bool            // during package init: unsupported calls return zero values
-	depth     int
-	Trace     bool
+	Stats        Stats
+	initDone     map[*ssa.Package]bool
+	InitPkgs     map[string]bool // packages whose init is interpreted
+	lenient      bool            // during package init: unsupported calls return zero values
+	depth        int
+	Trace        bool
 	// IgnorePanics: panics (bounds, nil, explicit) are treated as path ends that
 	// are assumed away instead of obligations.
 	PanicAsObligation bool
@@ -170,7 +176,23 @@ func (in *Interp) feasible(cond *smt.Term) bool {
 	return r != smt.Unsat // unknown = keep
 }
 
+// checkDeadline enforces the budget of a configuration. With BudgetCPU and ThreadCPU set the budget is one of
+// CPU time (this interpreter's thread plus its solver process), so that a machine shared with other work does not
+// turn a configuration that fits into one that does not; Deadline is then only a generous wall-clock cap.
 func (in *Interp) checkDeadline() {
+	if in.BudgetCPU > 0 && in.ThreadCPU != nil {
+		if !in.cpuStarted {
+			in.cpuStarted = true
+			in.cpu0 = in.ThreadCPU()
+		}
+		used := in.ThreadCPU() - in.cpu0
+		if in.Sol != nil {
+			used += in.Sol.CPU()
+		}
+		if used > in.BudgetCPU {
+			panic(in.unsupported("time budget of this configuration exceeded"))
+		}
+	}
 	if !in.Deadline.IsZero() && time.Now().After(in.Deadline) {
 		panic(in.unsupported("time budget of this configuration exceeded"))
 	}
